@@ -104,14 +104,24 @@ def check_tlv_parser(ctx, f, R):
     outs = absx.Interp(f, B, unroll=1, result_combinators=True, generic_loops=True).run()
     params = [d for b, d in B.defs.items() if d['kind'] == 'param']
     rec = lambda t: t[0] == 'call' and t[1] == body
-    # the depth parameter by role: the parameter the recursive call passes on incremented
-    depth = set()
+    # the depth parameter by role: the one unsigned integer parameter of the parser (what it is called and how the step is spelled -
+    # `depth + 1` at the call, a `let`, `depth += 1` on the mutable parameter - does not matter: the term is the value at entry)
+    ints = [d for b, d in B.defs.items() if d['kind'] == 'param' and not d['proj'] and (d['pat'].get('ty') or '') in ('usize', 'u8', 'u16', 'u32', 'u64')]
+    depth = {('param', d['name']) for d in ints} if len(ints) == 1 else set()
+    # nesting-bound-counts-nesting - what a recursive call receives in the depth position is the entry depth, stepped by one at most:
+    # then the bound limits how deep elements nest, and an element nested less deeply than the bound is never refused for its depth.
+    # A value that grows from one child to the next (carried around the children loop) or steps by more makes the bound count
+    # something else - siblings, octets - and flat, well-formed elements are refused.
     for o in outs:
         for e in o.st.ev:
-            if e[0] == 'call' and e[1] == body:
-                for a in e[2]:
-                    if a[0] == 'bin' and a[1] == 'Add' and a[2][0] == 'param':
-                        depth.add(a[2])
+            if e[0] == 'call' and e[1] == body and ints and ints[0]['idx'] < len(e[2]):
+                a = sem.strip_site(e[2][ints[0]['idx']])
+                D = ('param', ints[0]['name'])
+                okd = a == D or a == ('bin', 'Add', D, ('lit', 1))
+                ctx.add(R + '.nesting-bound-counts-nesting', 'recursive call|%s' % absx.fmt(a)[:40], loc(e[3]), okd,
+                        ('the depth passed to a child depends on its position among its siblings (%s is carried from one iteration of the children loop to the next)' % absx.fmt(a)[:50]
+                         if sem.has(a, lambda x: x[0] == 'carried') else 'the depth passed to a child is %s, not the entry depth plus one' % absx.fmt(a)[:50]) +
+                        ': the nesting bound then refuses well-formed elements that are not deeply nested at all (many children, many values)')
     def bound_exceeded(o):
         for a, t in o.st.pc:
             if a[0] == 'bin' and len(a) == 4:
